@@ -89,7 +89,8 @@ CHECKS = {
         'technique': 'explicit-state BFS over request sequences through the real handler mux; full endpoint x credential x target x body-shape matrix evaluated in every reached state against a reference authorisation model',
         'text': 'In every reached store state every cell of the matrix is sent to the real mux; refused cells must have a non-success status, disclose no list and leave the store byte-identical; authorised cells must have exactly the model effect; effective requests generate successor states (BFS).',
         'note': 'Handlers are driven in-process (httptest) against a real agent; tokens are issued once; the number of explored states is capped (reported).',
-        'parts': [RwTest('webapi', 'cmd/whawty-auth', ['harness/agentseq'], AGENT_SEQ, '^TestC06$')],
+        'parts': [RwTest('webapi', 'cmd/whawty-auth', ['harness/agentseq'], AGENT_SEQ, '^TestC06$'),
+                  RwTest('race', 'cmd/whawty-auth', ['harness/agentseq'], AGENT_SEQ, '^TestRaceC06$', race=True)],
     },
     'C07': {
         'level': 'exploration',
